@@ -20,6 +20,14 @@ impl Wake for CountWaker {
     fn wake_by_ref(self: &Arc<Self>) { self.0.fetch_add(1, Ordering::SeqCst); }
 }
 
+/// The waker of one poll ("the task that polls now"): forwards wake-ups to the session's counter. After a `Pending` the
+/// iterator must hold a clone of it (its reference count tells).
+pub struct TaskWaker(pub Arc<CountWaker>);
+impl Wake for TaskWaker {
+    fn wake(self: Arc<Self>) { self.0 .0.fetch_add(1, Ordering::SeqCst); }
+    fn wake_by_ref(self: &Arc<Self>) { self.0 .0.fetch_add(1, Ordering::SeqCst); }
+}
+
 #[derive(Clone, PartialEq, Eq, Debug)]
 pub enum Polled { Ready(Out), Pending }
 impl Polled {
@@ -44,6 +52,8 @@ pub struct ASess<B: MutRB<Item = T> + 'static, T: AsyncCopyApi, const W: bool> {
     pub last: Obs,
     free_base: usize,
     pub waker_count: Arc<CountWaker>,
+    /// after the last poll that returned `Pending`: does the iterator hold the waker of the task that polled?
+    pub last_registered: Option<bool>,
 }
 
 fn slot_off<T>(base: *const T, p: *const T) -> usize { ((p as usize).wrapping_sub(base as usize)) / std::mem::size_of::<T>().max(1) }
@@ -90,7 +100,7 @@ impl<B: MutRB<Item = T> + 'static, T: AsyncCopyApi, const W: bool> ASess<B, T, W
         let base = unsafe { p.get_next_slices_mut(0).expect("zero-length window").as_ptr() as *const T };
         let mut s = ASess { p: Some(Box::new(AsyncProdIter::from_sync(p))), w: w.map(|w| Box::new(AsyncWorkIter::from_sync(w))), c: Some(Box::new(AsyncConsIter::from_sync(c))),
             held: [None, None, None], held_wakes: [0; 3], held_op: [None, None, None], base, len, last: Obs::default(), free_base: FREED.load(Ordering::SeqCst),
-            waker_count: Arc::new(CountWaker(AtomicUsize::new(0))) };
+            waker_count: Arc::new(CountWaker(AtomicUsize::new(0))), last_registered: None };
         s.last = s.observe(vec![]);
         s
     }
@@ -153,12 +163,19 @@ impl<B: MutRB<Item = T> + 'static, T: AsyncCopyApi, const W: bool> ASess<B, T, W
     }
 
     fn poll_held(&mut self, r: Role) -> Polled {
-        let waker: Waker = self.waker_count.clone().into();
-        let mut cx = Context::from_waker(&waker);
-        let f = self.held[r.i()].as_mut().expect("no future");
-        match f(&mut cx) {
+        let task = Arc::new(TaskWaker(self.waker_count.clone()));
+        let waker: Waker = task.clone().into();
+        let res = {
+            let mut cx = Context::from_waker(&waker);
+            let f = self.held[r.i()].as_mut().expect("no future");
+            f(&mut cx)
+        };
+        drop(waker);
+        self.last_registered = None;
+        match res {
             Poll::Ready(o) => { let done = self.held[r.i()].take(); after(done); self.held_op[r.i()] = None; Polled::Ready(o) }
-            Poll::Pending => { self.held_wakes[r.i()] = self.wakes(); Polled::Pending }
+            // `task` itself is one reference; anything beyond it is a clone kept by the iterator
+            Poll::Pending => { self.last_registered = Some(Arc::strong_count(&task) >= 2); self.held_wakes[r.i()] = self.wakes(); Polled::Pending }
         }
     }
 
